@@ -66,7 +66,7 @@ def tree_case(draw):
         for _ in range(nreq):
             g = draw(st.integers(0, len(obs) - 1))
             req.append([g, draw(st.integers(1, obs[g]['nf']))])
-    return dict(obs=obs, conv=conv, req=req, config=draw(st.sampled_from(['env', 'env', 'path', 'path-keywords', 'env-run2d-keyword'])), photo=draw(st.booleans()),
+    return dict(obs=obs, conv=conv, req=req, staged=draw(st.booleans()), config=draw(st.sampled_from(['env', 'env', 'path', 'path-keywords', 'env-run2d-keyword'])), photo=draw(st.booleans()),
                 run2d=draw(st.sampled_from([RUN2D, RUN2D, 'trunk', '26', 'DR12x', 'master'])), plug_fiberid=draw(st.sampled_from(['rows', 'rows', 'unplugged', 'reversed'])))
 
 
@@ -130,8 +130,16 @@ def tree_body(case):
             if o['plate'] not in latest or o['mjd'] > obs[latest[o['plate']]]['mjd']:
                 latest[o['plate']] = i
         req = [[latest[obs[g]['plate']], min(f, obs[latest[obs[g]['plate']]]['nf'])] for g, f in req]
+    # a tree that grows between two calls (a plate is observed again): the request with the MJD omitted is first made while the
+    # latest observation of every plate that has several is still missing, then again after it has arrived
+    staged = bool(case.get('staged')) and conv == 'mjd-omitted'
+    early = list(range(len(obs)))
+    if staged:
+        early = [i for i, o in enumerate(obs) if i not in set(latest.values()) or sum(1 for q in obs if q['plate'] == o['plate']) == 1]
+        staged = len(early) < len(obs)
+    r_first = None
     with tmpdir() as top:
-        write_tree(top, case)
+        write_tree(top, dict(case, obs=[obs[i] for i in early]))
         r2 = case.get('run2d', RUN2D)
         # two survey trees side by side: reductions with a numeric tag (SDSS-I/II reruns) under $SPECTRO_REDUX, all others under $BOSS_SPECTRO_REDUX
         os.makedirs(os.path.join(top, 'boss'), exist_ok=True)
@@ -158,6 +166,15 @@ def tree_body(case):
         plates = np.array([obs[g]['plate'] for g, f in req], dtype='i4')
         mjds = np.array([obs[g]['mjd'] for g, f in req], dtype='i4')
         fibs = np.array([f for g, f in req], dtype='i4')
+        if staged:
+            first_latest = {}
+            for i in early:
+                if obs[i]['plate'] not in first_latest or obs[i]['mjd'] > obs[first_latest[obs[i]['plate']]]['mjd']:
+                    first_latest[obs[i]['plate']] = i
+            req_first = [[first_latest[obs[g]['plate']], min(f, obs[first_latest[obs[g]['plate']]]['nf'])] for g, f in req]
+            r_first = call(readspec, plates, fiber=np.array([f for g, f in req_first], dtype='i4'), **kw)
+            write_tree(top, dict(case, obs=[o for i, o in enumerate(obs) if i not in early]))
+            note_label('tree-grew-between-two-calls')
         if conv == 'vectors':
             r = call(readspec, plates, mjd=mjds, fiber=fibs, **kw)
         elif conv == 'mjd-omitted':
@@ -169,49 +186,54 @@ def tree_body(case):
             r = call(readspec, int(plates[0]), mjd=int(mjds[0]), fiber=fibs if len(fibs) > 1 else int(fibs[0]), **kw)
         else:
             r = call(readspec, int(plates[0]), mjd=int(mjds[0]), fiber=int(fibs[0]), **kw)
-    nreq = len(req)
-    npmax = max(obs[g]['npix'] for g, f in req)
-    with judge('readspec'):
-        for name in ('flux', 'invvar', 'andmask', 'ormask', 'disp', 'sky', 'loglam', 'plugmap', 'zans'):
-            check(name in r, 'readspec:missing-key:' + name)
-        check(np.asarray(r['flux']).shape == (nreq, npmax), 'readspec:flux-shape', lambda: dict(got=np.asarray(r['flux']).shape, want=(nreq, npmax)))
-        for i, (g, f) in enumerate(req):
-            o = obs[g]
-            plate, mjd, npix = o['plate'], o['mjd'], o['npix']
-            pix = np.arange(npix)
-            for name, h in (('flux', 0), ('invvar', 1), ('disp', 4), ('sky', 6)):
+    def verify(r, req):
+        nreq = len(req)
+        npmax = max(obs[g]['npix'] for g, f in req)
+        with judge('readspec'):
+            for name in ('flux', 'invvar', 'andmask', 'ormask', 'disp', 'sky', 'loglam', 'plugmap', 'zans'):
+                check(name in r, 'readspec:missing-key:' + name)
+            check(np.asarray(r['flux']).shape == (nreq, npmax), 'readspec:flux-shape', lambda: dict(got=np.asarray(r['flux']).shape, want=(nreq, npmax)))
+            for i, (g, f) in enumerate(req):
+                o = obs[g]
+                plate, mjd, npix = o['plate'], o['mjd'], o['npix']
+                pix = np.arange(npix)
+                for name, h in (('flux', 0), ('invvar', 1), ('disp', 4), ('sky', 6)):
+                    exp = np.zeros(npmax)
+                    exp[:npix] = val(plate, mjd, h, f, pix)
+                    got = np.asarray(r[name][i], dtype='f8')
+                    check(np.array_equal(got, exp), 'readspec:%s-row-is-not-request' % name,
+                          lambda: dict(row=i, request=[plate, mjd, f], got_head=got[:3].tolist(), want_head=exp[:3].tolist(), got_tail=got[-3:].tolist(), want_tail=exp[-3:].tolist(),
+                                       nreq=nreq, groups=len({q[0] for q in req})))
+                for name, off in (('andmask', plate), ('ormask', mjd)):
+                    exp = np.zeros(npmax, dtype='i8')
+                    exp[:npix] = f * 100 + pix + off
+                    check(np.array_equal(np.asarray(r[name][i], dtype='i8'), exp), 'readspec:%s-row-is-not-request' % name, lambda: dict(row=i, request=[plate, mjd, f]))
                 exp = np.zeros(npmax)
-                exp[:npix] = val(plate, mjd, h, f, pix)
-                got = np.asarray(r[name][i], dtype='f8')
-                check(np.array_equal(got, exp), 'readspec:%s-row-is-not-request' % name,
-                      lambda: dict(row=i, request=[plate, mjd, f], got_head=got[:3].tolist(), want_head=exp[:3].tolist(), got_tail=got[-3:].tolist(), want_tail=exp[-3:].tolist(),
-                                   nreq=nreq, groups=len({q[0] for q in req})))
-            for name, off in (('andmask', plate), ('ormask', mjd)):
-                exp = np.zeros(npmax, dtype='i8')
-                exp[:npix] = f * 100 + pix + off
-                check(np.array_equal(np.asarray(r[name][i], dtype='i8'), exp), 'readspec:%s-row-is-not-request' % name, lambda: dict(row=i, request=[plate, mjd, f]))
-            exp = np.zeros(npmax)
-            exp[:npix] = o['c0'] + o['c1'] * pix
-            check(bool(np.all(np.abs(np.asarray(r['loglam'][i], dtype='f8') - exp) <= 1e-12)), 'readspec:loglam-not-coeff0+coeff1*pixel',
-                  lambda: dict(row=i, request=[plate, mjd, f], got=np.asarray(r['loglam'][i])[:3].tolist(), want=exp[:3].tolist()))
-            pmrow = (int(r['plugmap']['FIBERID'][i]), int(r['plugmap']['PLATE'][i]), int(r['plugmap']['MJD'][i]))
-            # what the FIBERID column of row fibre-1 holds in this tree (the row is addressed by position, whatever the column says)
-            fid = f
-            if case.get('plug_fiberid') == 'unplugged' and (f - 1) % 3 == 0:
-                fid = -1
-            elif case.get('plug_fiberid') == 'reversed':
-                fid = o['nf'] - f + 1
-            check(pmrow == (fid, plate, mjd) and float(r['plugmap']['RA'][i]) == val(plate, mjd, 5, f, 0), 'readspec:plugmap-row-is-not-request', lambda: dict(row=i, got=pmrow, want=(fid, plate, mjd)))
-            zrow = (int(r['zans']['FIBERID'][i]), int(r['zans']['PLATE'][i]), int(r['zans']['MJD'][i]))
-            check(zrow == (f, plate, mjd) and float(r['zans']['Z'][i]) == val(plate, mjd, 7, f, 0), 'readspec:zans-row-is-not-request', lambda: dict(row=i, got=zrow, want=(f, plate, mjd)))
-            th = np.asarray(r['zans']['THETA'])
-            check(th.shape == (nreq, 4) and np.array_equal(th[i], val(plate, mjd, 7, f, 0) + 0.25 * np.arange(4)), 'readspec:zans-vector-column-wrong',
-                  lambda: dict(row=i, shape=th.shape))
-            mg = np.asarray(r['plugmap']['MAG'])
-            check(mg.shape == (nreq, 5) and np.array_equal(mg[i], (val(plate, mjd, 5, f, 0) % 100 + np.arange(5)).astype('f4')), 'readspec:plugmap-vector-column-wrong',
-                  lambda: dict(row=i, shape=mg.shape))
-            if case['photo']:
-                check('tsobj' in r and int(r['tsobj']['FIBERID'][i]) == f and float(r['tsobj']['OBJC'][i]) == val(plate, mjd, 8, f, 0), 'readspec:tsobj-row-is-not-request')
+                exp[:npix] = o['c0'] + o['c1'] * pix
+                check(bool(np.all(np.abs(np.asarray(r['loglam'][i], dtype='f8') - exp) <= 1e-12)), 'readspec:loglam-not-coeff0+coeff1*pixel',
+                      lambda: dict(row=i, request=[plate, mjd, f], got=np.asarray(r['loglam'][i])[:3].tolist(), want=exp[:3].tolist()))
+                pmrow = (int(r['plugmap']['FIBERID'][i]), int(r['plugmap']['PLATE'][i]), int(r['plugmap']['MJD'][i]))
+                # what the FIBERID column of row fibre-1 holds in this tree (the row is addressed by position, whatever the column says)
+                fid = f
+                if case.get('plug_fiberid') == 'unplugged' and (f - 1) % 3 == 0:
+                    fid = -1
+                elif case.get('plug_fiberid') == 'reversed':
+                    fid = o['nf'] - f + 1
+                check(pmrow == (fid, plate, mjd) and float(r['plugmap']['RA'][i]) == val(plate, mjd, 5, f, 0), 'readspec:plugmap-row-is-not-request', lambda: dict(row=i, got=pmrow, want=(fid, plate, mjd)))
+                zrow = (int(r['zans']['FIBERID'][i]), int(r['zans']['PLATE'][i]), int(r['zans']['MJD'][i]))
+                check(zrow == (f, plate, mjd) and float(r['zans']['Z'][i]) == val(plate, mjd, 7, f, 0), 'readspec:zans-row-is-not-request', lambda: dict(row=i, got=zrow, want=(f, plate, mjd)))
+                th = np.asarray(r['zans']['THETA'])
+                check(th.shape == (nreq, 4) and np.array_equal(th[i], val(plate, mjd, 7, f, 0) + 0.25 * np.arange(4)), 'readspec:zans-vector-column-wrong',
+                      lambda: dict(row=i, shape=th.shape))
+                mg = np.asarray(r['plugmap']['MAG'])
+                check(mg.shape == (nreq, 5) and np.array_equal(mg[i], (val(plate, mjd, 5, f, 0) % 100 + np.arange(5)).astype('f4')), 'readspec:plugmap-vector-column-wrong',
+                      lambda: dict(row=i, shape=mg.shape))
+                if case['photo']:
+                    check('tsobj' in r and int(r['tsobj']['FIBERID'][i]) == f and float(r['tsobj']['OBJC'][i]) == val(plate, mjd, 8, f, 0), 'readspec:tsobj-row-is-not-request')
+    if r_first is not None:
+        verify(r_first, req_first)
+    verify(r, req)
+    nreq = len(req)
     groups = [g for g, f in req]
     if len({obs[g]['npix'] for g in groups}) >= 2:
         note_label('different-pixel-counts')
